@@ -35,6 +35,10 @@ def conv_steps(rng, x, s1, s2, s3, kinds=("D", "F", "int", "fl", "s", "SD")):
     if s3 is not None:
         steps.append({"k": "via", "e": M(M(V("q"), "convert", U(s3)),
                                          "convert", U(s2))})
+    # the same unit pair once more with another amount
+    x2 = F(x) * 3 + F(7, 2)
+    steps.append({"id": "q2", "k": "q2", "e": Q(num(x2), s1)})
+    steps.append({"k": "r2", "e": M(V("q2"), "convert", U(s2))})
     return steps, kind
 
 
@@ -114,6 +118,13 @@ def judge_conv(chk, w, wid, obs, steps, s1, s2, s3, kind, plan=None):
     if ea.get("k") != "N" or ea.get("at") not in EXACT_TYPES or \
             val(ea) != exact:
         bad.append("equiv_amount gives %s, expected %s" % (brief(ea), exact))
+    q2o, r2o = obs.get("q2", {}), obs.get("r2", {})
+    if q2o.get("k") == "Q":
+        chk.count("second amount through the same unit pair")
+        want2 = w.expected_amount(val(q2o) * f1, s2)
+        if r2o.get("k") != "Q" or val(r2o) != want2 or r2o["u"] != s2:
+            bad.append("a second quantity %s %s converts to %s, expected %s"
+                       % (val(q2o), s1, brief(r2o), want2))
     if s3 is not None:
         via = obs.get("via", {})
         chk.count("triples")
